@@ -88,7 +88,7 @@ def messages_of_json(raw: bytes) -> List[dict]:
 def body_messages(body: str, rid: Any) -> List[dict]:
     j = {"jsonrpc": "2.0"}
     rid_eff = rid if rid is not None else "srv-x"
-    R = {**j, "id": rid_eff, "result": {"text": "é\U0001F600", "n": None}}
+    R = {**j, "id": rid_eff, "result": {"text": "\u00e9\U0001F600 \u2028\u2029\u0085 sep", "n": None}}
     E = {**j, "id": rid_eff, "error": {"code": -32001, "message": "denied"}}
     N1 = {**j, "method": "notifications/message", "params": {"data": "one"}}
     N2 = {**j, "method": "notifications/progress", "params": {"progressToken": "t", "progress": 1}}
